@@ -587,6 +587,8 @@ def call_builtin(ex, name, args, kw):
 
 
 def b_len(ex, v):
+    if isinstance(v, RangeDiffV):
+        v = range_diff_list(ex, v)
     if isinstance(v, SeqV):
         n = ops.seq_len(v)
         return n if isinstance(n, int) else Sym(n, "int")
@@ -683,9 +685,40 @@ def b_range(ex, *a):
     return ops.ops_Range(lo, hi)
 
 
+def range_diff_list(ex, v):
+    """list(set(range(lo, hi)).difference(xs)) for xs a concrete-length list of ints that is sorted ascending and duplicate free
+    with lo == xs[0], hi == xs[-1] + 1: the gaps between consecutive members, in ascending order (iteration order of a set of
+    small ints is ascending in CPython; the R record sorts it anyway)."""
+    xs = ops.iter_concrete(ex, v.xs)
+    if not xs:
+        raise Unsupported("range difference with an empty member list")
+    pre = [zbool(unwrap_bool(ops.compare(ex, "==", v.lo, xs[0]))), zbool(unwrap_bool(ops.compare(ex, "==", v.hi, ops.binop(ex, "+", xs[-1], 1))))]
+    pre += [zbool(unwrap_bool(ops.compare(ex, "<=", p, q))) for p, q in zip(xs, xs[1:])]
+    ex.p.solver.push()
+    ex.p.solver.add(z3.Not(z3.And(*pre)))
+    okp = ex.p.solver.check() == z3.unsat
+    ex.p.solver.pop()
+    if not okp:
+        raise Unsupported("set(range(..)).difference(xs): xs not provably sorted with the range spanning exactly xs[0]..xs[-1]")
+    segs = []
+    for p, q in zip(xs, xs[1:]):
+        gap = ops.binop(ex, "-", ops.binop(ex, "-", q, p), 1)
+        if isinstance(gap, int):
+            segs.append(Lit([ops.binop(ex, "+", p, 1 + j) for j in range(max(gap, 0))]))
+        else:
+            gt = z3.simplify(z3.If(term(gap, "int") < 0, 0, term(gap, "int")))
+            segs.append(Blk(gt, lambda j, p=p: ops.binop(ex, "+", ops.binop(ex, "+", p, 1), j if isinstance(j, (int, Sym)) else Sym(j, "int"))))
+    r = SeqV("list", segs)
+    r.ascending = True
+    used("set(range(a, b+1)).difference(sorted members a..b): the gaps between consecutive members")
+    return r
+
+
 def b_list(ex, v=None):
     if v is None:
         return SeqV("list")
+    if isinstance(v, RangeDiffV):
+        return range_diff_list(ex, v)
     if isinstance(v, SeqV):
         return v.copy("list")
     if isinstance(v, RowPrefix):
@@ -1539,7 +1572,10 @@ def _idx_checked(ex, i, n):
         return mk_num(nt + i, "int")
     if ex.pure == 0:
         if ex.p.branch(it < 0, "negindex"):
-            raise Unsupported("possibly negative symbolic index")
+            nt = term(n, "int")
+            if not ex.p.branch(it >= -nt, "index2"):
+                _raise("IndexError")
+            return mk_num(it + nt, "int")  # numpy (like Python) counts negative indices from the end
         if not ex.p.branch(it < term(n, "int"), "index2"):
             _raise("IndexError")
     return i
@@ -1578,6 +1614,8 @@ def fancy_index(ex, v: SeqV, idx: SeqV):
 
 
 def getitem_special(ex, v, idx):
+    if isinstance(v, RangeDiffV):
+        return ops.getitem(ex, range_diff_list(ex, v), idx)
     if isinstance(v, RowPrefix):
         raise Unsupported("subscript of row prefix")
     if isinstance(v, Obj) and "__records__" in v.fields:
